@@ -1,7 +1,7 @@
 (* C17 — lemmas about the matcher model.  Facts about the source are hypotheses
    (discharged against Tables.v in Obligations.v). *)
 From Coq Require Import Permutation.
-From G17 Require Import Model Fragment.
+From G17 Require Import RegexProofs Model Fragment.
 
 
 Definition get_re (r : rx) : rre := match compile_top r with Ok a => a | _ => RFail end.
@@ -105,11 +105,11 @@ Proof. unfold accepts_at. simpl. destruct (run a q); reflexivity. Qed.
 
 Lemma matches_alt a c s : matches (RAlt a c) s = matches a s || matches c s.
 Proof.
-  unfold matches. rewrite <- existsb_orb. apply existsb_ext'. intros q. apply accepts_alt.
+  rewrite !matches_eq. unfold matches_spec. rewrite <- existsb_orb. apply existsb_ext'. intros q. apply accepts_alt.
 Qed.
 
 Lemma matches_fail s : matches RFail s = false.
-Proof. unfold matches. induction (positions None s); simpl; auto. Qed.
+Proof. rewrite matches_eq. unfold matches_spec. induction (positions None s); simpl; auto. Qed.
 
 Lemma matches_alt_of l s : matches (alt_of l) s = existsb (fun a => matches a s) l.
 Proof.
@@ -125,7 +125,7 @@ Proof. induction l; simpl; congruence. Qed.
 
 Lemma matches_seq_eps a s : matches (RSeq a REps) s = matches a s.
 Proof.
-  unfold matches. apply existsb_ext'. intro q. unfold accepts_at. simpl.
+  rewrite !matches_eq. unfold matches_spec. apply existsb_ext'. intro q. unfold accepts_at. simpl.
   rewrite flat_map_single. reflexivity.
 Qed.
 
